@@ -268,10 +268,9 @@ Section RN.
     specialize (IH (@nmin RNum x a)). cbn in IH. destruct IH as (Hm & Hle & Hall).
     assert (Hn : (@nmin RNum x a = x /\ x <= a) \/ (@nmin RNum x a = a /\ a <= x)).
     { unfold nmin. rn. case_ltb a x; [right|left]; split; auto; lra. }
-    repeat split.
-    - destruct Hm as [Hm|Hm]; [|auto]. destruct Hn as [[Hn _]|[Hn _]]; rewrite Hn in Hm; auto.
-    - destruct Hn as [[Hn ?]|[Hn ?]]; rewrite Hn in Hle; lra.
-    - intros y [<-|Hy]; auto. destruct Hn as [[Hn ?]|[Hn ?]]; rewrite Hn in Hle; lra.
+    destruct Hn as [[Hn Hxa]|[Hn Hxa]]; rewrite Hn in *;
+      (split; [destruct Hm as [Hm|Hm]; [first [left; exact Hm | right; left; symmetry; exact Hm] | right; right; exact Hm]
+              | split; [lra | intros y [<-|Hy]; [lra | auto]]]).
   Qed.
 
   Lemma fold_nmax_spec (l : list R) x :
@@ -281,9 +280,9 @@ Section RN.
     specialize (IH (@nmax RNum x a)). cbn in IH. destruct IH as (Hm & Hle & Hall).
     assert (Hn : (@nmax RNum x a = x /\ a <= x) \/ (@nmax RNum x a = a /\ x <= a)).
     { unfold nmax. rn. case_ltb x a; [right|left]; split; auto; lra. }
-    repeat split.
-    - destruct Hm as [Hm|Hm]; [|auto]. destruct Hn as [[Hn _]|[Hn _]]; rewrite Hn in Hm; auto.
-    - destruct Hn as [[Hn ?]|[Hn ?]]; rewrite Hn in Hle; lra.
-    - intros y [<-|Hy]; auto. destruct Hn as [[Hn ?]|[Hn ?]]; rewrite Hn in Hle; lra.
+    destruct Hn as [[Hn Hxa]|[Hn Hxa]]; rewrite Hn in *;
+      (split; [destruct Hm as [Hm|Hm]; [first [left; exact Hm | right; left; symmetry; exact Hm] | right; right; exact Hm]
+              | split; [lra | intros y [<-|Hy]; [lra | auto]]]).
   Qed.
+
 End RN.
